@@ -127,6 +127,7 @@ type Engine struct {
 	wstreamKeys  []*smt.Term // writers the function under verification may append to (assigns wstream(..))
 	topFrameRule func(e *Engine, st *State, ref *smt.Term, kind string, pos string)
 	CheckNarrow  bool      // emit 'narrow' obligations for value-changing integer conversions
+	AbstractConc bool      // go statements ignored, channels opaque (constructor postconditions only)
 	OwnCheck     bool      // ownership discipline of deep copies (C17)
 	ownAlloc0    *smt.Term // allocation counter at entry
 	quiet        int
